@@ -220,7 +220,7 @@ pub fn run(tier: Tier, seed: u64) -> i32 {
     let mut ev = Evidence::new("C03", tier, seed, "model_checking");
     let rep = Reporter::new("C03");
     let th = tier == Tier::Thorough;
-    let nmax = if th { 8 } else { 6 };
+    let nmax = if th { 9 } else { 7 };
     let mut l = Local::default();
     let mut fams = vec![];
 
@@ -246,7 +246,7 @@ pub fn run(tier: Tier, seed: u64) -> i32 {
                 t.const_size = konst;
                 LMovie::new(1000, vec![t])
             };
-            if n <= 8 {
+            if n <= 9 {
                 for sv in size_vecs.iter() {
                     judge("C03", "A:chunks_x_sizes", &mk(sv, false), l);
                 }
@@ -262,7 +262,7 @@ pub fn run(tier: Tier, seed: u64) -> i32 {
     fams.push(json!({"family": "A:chunks_x_stsc_runs_x_offset_width_x_sizes", "n_max": nmax, "files": count}));
 
     // (B) deltas x run encodings; (C) composition offsets x run encodings x version; (D) sync subsets
-    let nb = if th { 8 } else { 6 };
+    let nb = if th { 9 } else { 7 };
     let mut cb = 0u64;
     for n in 0..=nb {
         let dvs = vectors(&[1u32, 0, 3], n);
@@ -309,7 +309,7 @@ pub fn run(tier: Tier, seed: u64) -> i32 {
     fams.push(json!({"family": "B/C/D:deltas, composition offsets (v0,v1), sync subsets with every run encoding", "n_max": nb, "delta_vectors": cb}));
 
     // (E) two tracks with every interleaving of their chunk sequences; one track with its chunks in every order
-    let nsum = if th { 8 } else { 6 };
+    let nsum = if th { 9 } else { 7 };
     let mut ce = 0u64;
     for n1 in 1..nsum {
         for n2 in 1..=(nsum - n1) {
@@ -365,7 +365,7 @@ pub fn run(tier: Tier, seed: u64) -> i32 {
     fams.push(json!({"family": "E:two-track interleavings (mdat after and before moov), chunk order permutations", "files": ce}));
 
     // (F) complete cross product of all families for small N
-    let nf = if th { 3 } else { 2 };
+    let nf = if th { 4 } else { 3 };
     let mut cf = 0u64;
     for n in 0..=nf {
         let mut items = vec![];
